@@ -564,7 +564,7 @@ def pm8_start_protocol(r, R):
         okd = flag_ok and after and snap_ok and ev_ok
         why = "after the tag parser, exactly when the child pre-existed, with the snapshot and this event" if okd else \
             "demotion call: guard=%s (must be the pre-existence flag only), after parser=%s, snapshot passed=%s, same event=%s" % ([guard_s(x) for x in g], after, snap_ok, ev_ok)
-    ob(r, "PM8a.demotion-after-repeat", P, "Start arm", okd, why, ds[0] if ds else tp_s, "PM8a|start")
+    ob(r, "PM8a.demotion-after-repeat", P + ("C06",), "Start arm", okd, why, ds[0] if ds else tp_s, "PM8a|start")
     if ds:
         ok2 = _result_becomes_root(R, ds[0])
         ob(r, "PM8a.demotion-result-kept", P + ("C06",), "Start arm", ok2, "the demotion step's Ok value replaces the current element" if ok2 else "demotion result is not stored back", ds[0], "PM8a|store|Start")
@@ -582,7 +582,7 @@ def pm8_start_protocol(r, R):
         oke = not g and b.dominates(tp_e.bb, d.bb) and empty_map and any(_same_event(R, x, "Empty") for x in args)
         why = "after the tag parser, unconditionally, with an empty snapshot (every Mandatory child of an existing element is demoted)" if oke else \
             "Empty-arm demotion: guards=%s, empty snapshot=%s" % ([guard_s(x) for x in g], empty_map)
-    ob(r, "PM11.empty-demotes", P, "Empty arm", oke, why, de[0] if de else tp_e, "PM11|empty")
+    ob(r, "PM11.empty-demotes", P + ("C06",), "Empty arm", oke, why, de[0] if de else tp_e, "PM11|empty")
     if de:
         ok2 = _result_becomes_root(R, de[0])
         ob(r, "PM8a.demotion-result-kept", P + ("C06",), "Empty arm", ok2, "the demotion step's Ok value replaces the current element" if ok2 else "demotion result is not stored back", de[0], "PM8a|store|Empty")
@@ -662,7 +662,10 @@ def _snapshot_flag(r, R):
             sw_bb = [a for (a, s) in sn.control_deps().get(trues[0].bb, ())]
             ok = ok and bool(falses) and all(sn.dominates(f.bb, trues[0].bb) or f.bb == trues[0].bb for f in falses)
             why = "flag = (the child already exists): set to true exactly in the Some arm, false initially" if ok else "flag guards: %s" % [guard_s(x) for x in g]
-    ob(r, "PM8a.pre-existence-flag", ("C01", "C03"), sn.name, ok, why, mir.line_of(sn.span), "PM8a|flag")
+    ob(r, "PM8a.pre-existence-flag", ("C01", "C03", "C06"), sn.name, ok, why, mir.line_of(sn.span), "PM8a|flag")
+    rets = [s for s in sn.assigns() if s.node["place"]["l"] == 0 and not s.node["place"]["p"]]
+    ob(r, "PM9.single-result-path", ("C01", "C03", "C06"), sn.name, len(rets) == 1, "the snapshot function has a single result (snapshot, flag)" if len(rets) == 1 else
+       "the snapshot function has %d result paths: a side exit bypasses the checked snapshot loop" % len(rets), rets[0] if rets else None, "PM9|single-result")
 
 
 def pm9_snapshot(r, R):
@@ -679,7 +682,7 @@ def pm9_snapshot(r, R):
     item_guard = [x for x in g if x[0] == "enum" and x[1] == "necessity::Necessity"]
     others = [x for x in g if x not in item_guard and not (x[0] == "enum" and x[2] == ("arg", 1))]
     ok_a = len(item_guard) == 1 and item_guard[0][3] == "Mandatory" and _is_loop_item(sn, item_guard[0][2], "children")
-    ob(r, "PM9a.snapshot-only-mandatory", ("C01", "C03"), sn.name, ok_a, "a child is snapshotted only while it is Mandatory" if ok_a else
+    ob(r, "PM9a.snapshot-only-mandatory", ("C01", "C03", "C06"), sn.name, ok_a, "a child is snapshotted only while it is Mandatory" if ok_a else
        "snapshot insert is guarded by %s" % [guard_s(x) for x in g], c, "PM9a|mandatory")
     ok_b = ok_a and not others and loop is not None
     key = strip(term_of(sn, c.node["args"][1]), mir.VALUE_PRESERVING)
@@ -773,11 +776,11 @@ def pm10_demotion(r, R):
                     kind = "absent"
         kinds.setdefault(kind, []).append((c, g))
     u = kinds.get("unchanged", [])
-    ob(r, "PM10a.unchanged-count-demoted", ("C01", "C03"), ds.name, len(u) == 1,
+    ob(r, "PM10a.unchanged-count-demoted", ("C01", "C03", "C06"), ds.name, len(u) == 1,
        "a child whose snapshot counter is unchanged (not seen in this occurrence) is collected for demotion" if len(u) == 1 else
        "%d collection site(s) guarded by `snapshot.get(child.name) == Some(child.count())`" % len(u), u[0][0] if u else mir.line_of(ds.span), "PM10a|unchanged")
     a = kinds.get("absent", [])
-    ob(r, "PM10b.new-mandatory-demoted", ("C01", "C03"), ds.name, len(a) == 1,
+    ob(r, "PM10b.new-mandatory-demoted", ("C01", "C03", "C06"), ds.name, len(a) == 1,
        "a Mandatory child that is not in the snapshot (first seen in a later occurrence) is collected for demotion" if len(a) == 1 else
        "%d collection site(s) guarded by `Mandatory && !snapshot.contains_key(child.name)`" % len(a), a[0][0] if a else mir.line_of(ds.span), "PM10b|absent")
     other = kinds.get(None, [])
@@ -825,7 +828,7 @@ def pm10_demotion(r, R):
         g_ok = all((x[0] == "enum" and x[3] == "Some") for x in g) and len(g) == 2
         okc = pop_ok and par_ok and g_ok
         why = "every collected name is popped and demoted on current.get_child_mut(tag name)" if okc else "pop source ok=%s, parent ok=%s, guards=%s" % (pop_ok, par_ok, [guard_s(x) for x in g])
-    ob(r, "PM10c.collected-are-demoted", ("C01", "C03"), ds.name, okc, why, sco[0] if sco else mir.line_of(ds.span), "PM10c|demote")
+    ob(r, "PM10c.collected-are-demoted", ("C01", "C03", "C06"), ds.name, okc, why, sco[0] if sco else mir.line_of(ds.span), "PM10c|demote")
     # returns the same root
     rets = [s for s in ds.assigns() if s.node["place"]["l"] == 0 and s.node["rv"]["k"] == "agg" and s.node["rv"]["variant"] == "Ok"]
     okr = len(rets) == 1 and strip(term_of(ds, rets[0].node["rv"]["ops"][0])) in (("arg", par["root"]), ("local", par["root"]))
